@@ -83,6 +83,57 @@ struct MSetNested {
     m: MomentumMarketAgent,
 }
 
+// The same three-member set declared again, twice, and once with the update written out by hand in
+// declaration order: a set is a function of its declaration, so all four must produce the same run.
+#[derive(AgentSet)]
+struct SetAllB {
+    r: RandomAgents,
+    n: NoiseAgent,
+    m: MomentumAgent,
+}
+#[derive(AgentSet)]
+struct SetAllC {
+    r: RandomAgents,
+    n: NoiseAgent,
+    m: MomentumAgent,
+}
+struct HandAll {
+    r: RandomAgents,
+    n: NoiseAgent,
+    m: MomentumAgent,
+}
+impl AgentSet for HandAll {
+    fn update<R: RngCore>(&mut self, env: &mut Env, rng: &mut R) {
+        bourse_de::agents::Agent::update(&mut self.r, env, rng);
+        bourse_de::agents::Agent::update(&mut self.n, env, rng);
+        bourse_de::agents::Agent::update(&mut self.m, env, rng);
+    }
+}
+#[derive(MarketAgentSet)]
+struct MSetAllB {
+    r: RandomMarketAgents,
+    n: NoiseMarketAgent,
+    m: MomentumMarketAgent,
+}
+#[derive(MarketAgentSet)]
+struct MSetAllC {
+    r: RandomMarketAgents,
+    n: NoiseMarketAgent,
+    m: MomentumMarketAgent,
+}
+struct MHandAll {
+    r: RandomMarketAgents,
+    n: NoiseMarketAgent,
+    m: MomentumMarketAgent,
+}
+impl MarketAgentSet for MHandAll {
+    fn update<R: RngCore, const M: usize, const N: usize>(&mut self, env: &mut MarketEnv<M, N>, rng: &mut R) {
+        bourse_de::agents::MarketAgent::update(&mut self.r, env, rng);
+        bourse_de::agents::MarketAgent::update(&mut self.n, env, rng);
+        bourse_de::agents::MarketAgent::update(&mut self.m, env, rng);
+    }
+}
+
 fn rnd(tick: u32) -> RandomAgents {
     RandomAgents::new(5, (90, 111), (1, 10), tick, 0.6)
 }
@@ -309,6 +360,9 @@ pub fn run_point(p: &Point, d: Driver, stream: &mut Vec<Ans>) -> (u64, u64) {
             5 => drive_single(p, &mut SetAll { r: rnd(t), n: noise(t), m: mom(t) }, d, stream),
             7 => drive_single(p, &mut SetN { n: NoiseAgent::new(100, 1500, NoiseAgentParams { tick_size: t, p_limit: 1.0, p_market: 0.1, p_cancel: 0.1, trade_vol: 3, price_dist_mu: 0.0, price_dist_sigma: 2.0 }) }, d, stream),
             8 => drive_single(p, &mut SetR { r: RandomAgents::new(70_000, (90, 111), (1, 10), t, 1.0) }, d, stream),
+            9 => drive_single(p, &mut SetAllB { r: rnd(t), n: noise(t), m: mom(t) }, d, stream),
+            10 => drive_single(p, &mut SetAllC { r: rnd(t), n: noise(t), m: mom(t) }, d, stream),
+            11 => drive_single(p, &mut HandAll { r: rnd(t), n: noise(t), m: mom(t) }, d, stream),
             _ => drive_single(p, &mut SetNested { inner: SetRN { r: rnd(t), n: noise(t) }, m: mom(t) }, d, stream),
         }
     } else {
@@ -321,6 +375,9 @@ pub fn run_point(p: &Point, d: Driver, stream: &mut Vec<Ans>) -> (u64, u64) {
             5 => drive_multi(p, &mut MSetAll { r: mrnd(0, t), n: mnoise(1, t), m: mmom(1, t) }, d, stream),
             7 => drive_multi(p, &mut MSetN { n: NoiseMarketAgent::new(1, 100, 1500, NoiseAgentParams { tick_size: t, p_limit: 1.0, p_market: 0.1, p_cancel: 0.1, trade_vol: 3, price_dist_mu: 0.0, price_dist_sigma: 2.0 }) }, d, stream),
             8 => drive_multi(p, &mut MSetR { r: RandomMarketAgents::new(0, 70_000, (90, 111), (1, 10), t, 1.0) }, d, stream),
+            9 => drive_multi(p, &mut MSetAllB { r: mrnd(0, t), n: mnoise(1, t), m: mmom(1, t) }, d, stream),
+            10 => drive_multi(p, &mut MSetAllC { r: mrnd(0, t), n: mnoise(1, t), m: mmom(1, t) }, d, stream),
+            11 => drive_multi(p, &mut MHandAll { r: mrnd(0, t), n: mnoise(1, t), m: mmom(1, t) }, d, stream),
             _ => drive_multi(p, &mut MSetNested { inner: MSetRN { r: mrnd(1, t), n: mnoise(0, t) }, m: mmom(0, t) }, d, stream),
         }
     }
@@ -1003,8 +1060,44 @@ fn scripted_part(out: &mut Outcome, tier: &str) {
     out.push("samples", json!({"composition": COMPOSITIONS[5], "multi_asset": false, "tick": 2, "scripted_round": 1, "script": crate::agentsx::ans_json(&scripts[k])}));
 }
 
+/// A derived set is a function of its declaration: the three-member composition declared three times
+/// (identical text) and once with the update written out by hand in declaration order must produce
+/// the same run for the same seed and parameters (whatever a derive does at expansion time - hashing,
+/// sorting, grouping - must not depend on anything but the declaration).
+fn twin_declarations_part(out: &mut Outcome, t: bool) {
+    let mut runs = 0u64;
+    for multi in [false, true] {
+        for seed in if t { vec![0u64, 1, 2, 3] } else { vec![0u64, 1] } {
+            for tick in [1u32, 2] {
+                let mut none = Vec::new();
+                let mut ds: Vec<(usize, Result<(u64, u64), String>)> = Vec::new();
+                for comp in [5usize, 9, 10, 11] {
+                    let p = Point { comp, multi, seed, steps: 30, tick, step_size: 100 };
+                    ds.push((comp, util::subject(|| run_point(&p, Driver::Runner { progress: false }, &mut none))));
+                    runs += 1;
+                }
+                let replay = json!({"engine": "c09", "part": "twin declarations", "multi_asset": multi, "seed": seed, "tick": tick, "steps": 30});
+                let first = ds[0].1.clone();
+                for (comp, d) in &ds {
+                    match (d, &first) {
+                        (Err(m), _) => out.fail_other(&format!("determinism/abort/{}", util::panic_sig(m)), format!("twin declaration {}: {}", comp, m), replay.clone()),
+                        (Ok(a), Ok(b)) if a.0 != b.0 => out.fail_other(
+                            "determinism/identical-declarations-differ",
+                            format!("the set (random, noise, momentum) declared as composition {} (9, 10: the same declaration repeated; 11: update written out by hand in declaration order) gave digest {} but the first declaration gave {} - same seed, same parameters", comp, a.0, b.0),
+                            replay.clone(),
+                        ),
+                        _ => {}
+                    }
+                }
+            }
+        }
+    }
+    out.set("twin_declarations", json!({"runs": runs, "rule": "the three-member set declared three times and once hand-written, Env and MarketEnv<2,10>, 30 steps: equal outputs"}));
+}
+
 pub fn c09(tier: &str) -> i32 {
     let mut out = Outcome::new("C09", tier, "model_checking");
+    twin_declarations_part(&mut out, tier == "thorough");
     scripted_part(&mut out, tier);
     sweep_part(&mut out, tier);
     interleaved_part(&mut out);
